@@ -726,7 +726,9 @@ class Interp:
                     rb = self.as_bool_expr(r)
                     if rb is not None:
                         merged = z3.And(cb, rb) if is_and else z3.Or(cb, rb)
-                except (Unsupported, Raise):
+                except Raise:
+                    merged = None  # the right operand cannot be evaluated here: decide the left one
+                except Unsupported:
                     if snap:
                         raise
                     merged = None
@@ -1122,6 +1124,17 @@ class Interp:
             if a.term is not b.term and a.term.etype is not None and b.term.etype is not None:
                 ctx.assume(a.term.length() == b.term.length())
                 ctx.links.append((a.term, b.term))
+            return True, None
+        if (isinstance(a, NT) and isinstance(b, tuple)) or (isinstance(a, tuple) and isinstance(b, NT)):
+            # a namedtuple read back through an abstract list of mixed tuple kinds: compared field by field
+            # (the tuple-vs-namedtuple distinction inside one list is not tracked by the list abstraction)
+            pa, pb = self.elem_parts(a), self.elem_parts(b)
+            if len(pa) != len(pb):
+                return False, (path + ": tuple length", None)
+            for k, (x, y) in enumerate(zip(pa, pb)):
+                ok, why = self.same_value(x, y, "%s[%d]" % (path, k))
+                if not ok:
+                    return ok, why
             return True, None
         if isinstance(a, (tuple, NT, AList)) and isinstance(b, (tuple, NT, AList)):
             ia, ib = self.bm.tuple_items(self, a), self.bm.tuple_items(self, b)
